@@ -17,6 +17,8 @@ def newline_exclusivity(chk, P):
         chk.require(not spec.errors, "LEX", "LEX:%s:patterns-supported" % enum.split("::")[-1], "all patterns parsed", "unsupported logos patterns: %s" % spec.errors)
         ks = spec.kinds_containing("\n")
         chk.require(ks == ["Eol"] and spec.literal("Eol") == "\n", "LEX", "LEX:%s:newline-only-in-Eol" % enum.split("::")[-1], "the only pattern whose language contains '\\n' is Eol = \"\\n\"", "patterns that can contain a newline: %s (Eol literal %r)" % (ks, spec.literal("Eol")))
+        cr = spec.kinds_containing("\r")
+        chk.require(bool(cr) and all(spec.is_skipped(k) for k in cr if k != "Comment") and any(spec.is_skipped(k) and k != "Comment" for k in cr), "LEX", "LEX:%s:CR-is-skipped" % enum.split("::")[-1], "a carriage return is skipped blank space (CRLF == LF)", "'\\r' is matched by %s: it is not skipped as blank space" % (cr or "no pattern (it becomes an error token)"))
         chk.require(not spec.is_skipped("Eol"), "LEX", "LEX:%s:Eol-is-yielded" % enum.split("::")[-1], "Eol is a yielded token", "Eol is skipped by the lexer")
 
 
